@@ -194,3 +194,69 @@ Proof.
   destruct (size o' =? b_cap o' - 1)%Z; [destruct (p_has_comp p); [|discriminate]|];
     injection H as _ <- _; exact Hok.
 Qed.
+
+(** ------------------------------------------------------------------ *)
+(** Field-level specifications of the port operations (used by the connection proofs). *)
+Lemma deliver_spec m p u p' ns : deliver m p = Ok u p' ns ->
+  can_deliver p = true /\ content (p_in p') = content (p_in p) ++ [m] /\
+  b_cap (p_in p') = b_cap (p_in p) /\ p_out p' = p_out p /\
+  p_name p' = p_name p /\ p_has_comp p' = p_has_comp p.
+Proof.
+  unfold deliver, can_deliver. destruct (can_push (p_in p)) eqn:Ec; cbn [negb]; [|discriminate].
+  destruct (push m (p_in p)) as [i'|] eqn:E; [|discriminate]. intro H. injection H as _ <- _.
+  split; [reflexivity|]. split; [exact (push_content _ _ _ E)|].
+  destruct (push_cap _ _ _ E) as [Hc _]. repeat split; assumption || reflexivity.
+Qed.
+
+Lemma deliver_total m p : can_deliver p = true -> exists p' ns, deliver m p = Ok tt p' ns.
+Proof.
+  unfold deliver, can_deliver. intro Hc. rewrite Hc. cbn [negb].
+  destruct (proj2 (push_some_iff m (p_in p)) Hc) as [b' Hb]. rewrite Hb. eauto.
+Qed.
+
+Lemma retrieve_outgoing_spec p v p' ns : retrieve_outgoing p = Ok v p' ns ->
+  content (p_out p') = tl (content (p_out p)) /\ b_cap (p_out p') = b_cap (p_out p) /\
+  p_in p' = p_in p /\ p_name p' = p_name p /\ p_has_comp p' = p_has_comp p /\
+  v = hd None (content (p_out p)).
+Proof.
+  unfold retrieve_outgoing.
+  pose proof (pop_content nilmsg (p_out p)) as Hc. pose proof (pop_value nilmsg (p_out p)) as Hv.
+  pose proof (pop_cap nilmsg (p_out p)) as [Hcap _].
+  destruct (pop nilmsg (p_out p)) as [w o']. cbn [fst snd] in *.
+  assert (Hok : forall nn, Ok w (set_out p o') nn = Ok v p' ns ->
+     content (p_out p') = tl (content (p_out p)) /\ b_cap (p_out p') = b_cap (p_out p) /\
+     p_in p' = p_in p /\ p_name p' = p_name p /\ p_has_comp p' = p_has_comp p /\
+     v = hd None (content (p_out p))).
+  { intros nn H. injection H as <- <- _. cbn [set_out p_out p_in p_name p_has_comp].
+    repeat split; try assumption; try reflexivity. }
+  destruct w as [mw|].
+  - destruct (size o' =? b_cap o' - 1)%Z; [destruct (p_has_comp p); [|discriminate]|]; apply Hok.
+  - intro H. injection H as <- <- _. cbn [set_out p_out p_in p_name p_has_comp].
+    repeat split; try assumption; try reflexivity.
+Qed.
+
+Lemma send_spec m p u p' ns : send (Some m) p = Ok u p' ns ->
+  msg_valid p m = true /\ can_send p = true /\
+  content (p_out p') = content (p_out p) ++ [Some m] /\ b_cap (p_out p') = b_cap (p_out p) /\
+  p_in p' = p_in p /\ p_name p' = p_name p /\ p_has_comp p' = p_has_comp p /\
+  ns = (if (size (p_out p) =? 0)%Z then [NSend] else []).
+Proof.
+  unfold send, can_send. destruct (msg_valid p m); cbn [negb]; [|discriminate].
+  destruct (can_push (p_out p)) eqn:Ec; cbn [negb]; [|discriminate].
+  destruct (push (Some m) (p_out p)) as [o'|] eqn:E; [|discriminate]. intro H. injection H as _ <- <-.
+  destruct (push_cap _ _ _ E) as [Hc _].
+  repeat split; try reflexivity; [exact (push_content _ _ _ E)|exact Hc].
+Qed.
+
+Lemma retrieve_incoming_spec p v p' ns : retrieve_incoming p = Ok v p' ns ->
+  content (p_in p') = tl (content (p_in p)) /\ b_cap (p_in p') = b_cap (p_in p) /\
+  p_out p' = p_out p /\ p_name p' = p_name p /\ p_has_comp p' = p_has_comp p /\
+  v = hd None (content (p_in p)) /\
+  ns = (if negb (size (p_in p) =? 0)%Z && (size (p_in p') =? b_cap (p_in p) - 1)%Z then [NAvailable] else []).
+Proof.
+  unfold retrieve_incoming. rewrite size_zero_nil.
+  destruct (content (p_in p)) as [|x r] eqn:Ec.
+  - intro H. injection H as <- <- <-. rewrite Ec. cbn. repeat split; reflexivity.
+  - rewrite (pop_cons nilmsg _ _ _ Ec). intro H. injection H as <- <- <-.
+    cbn [set_in p_in p_out p_name p_has_comp negb andb]. repeat split; reflexivity.
+Qed.
